@@ -142,6 +142,11 @@ def main(argv=None):
     ctx.cleanup()
 
     violations = res.get("violations", [])
+    skipped = [v for v in violations if "skipped_after_hangs" in str(v.get("detail", ""))]
+    if skipped and len(skipped) < len(violations):
+        # executions a worker did not run any more after four watchdog timeouts (mc/vloop.py): not evidence of anything
+        violations = [v for v in violations if "skipped_after_hangs" not in str(v.get("detail", ""))]
+        print(f"NOTE property={pid} {len(skipped)} execution(s) were skipped after repeated watchdog timeouts in their worker")
     uniq, sigcount = dedupe(violations)
     known = load_known()
     unlisted, listed = [], {}
